@@ -80,3 +80,74 @@ Proof.
   - apply exec_act_frame. exact H.
   - rewrite (read_same cfg E a s H). reflexivity.
 Qed.
+
+(* ---- no lost update: tags pushed concurrently are all present, under every schedule ------------------------------- *)
+(* Whatever the scheduler does, the store sees some sequence of atomic actions.  Take any such sequence in which the
+   index of repository r is only modified by insertions of plain tagged descriptors (a tag, no referrers annotation,
+   no children) with pairwise distinct tags: every inserted descriptor is in r's index at the end. *)
+From Olareg Require Import IndexProofs IndexInv.
+
+Definition exec_acts (cfg : config) (E : env) (acts : list act) (s : state) : state :=
+  fold_left (fun s a => fst (exec_act cfg E a s)) acts s.
+
+Definition plain_tagged (d : desc) : Prop := ann_get RefName d <> "" /\ ann_get RefSubject d = "".
+
+(* an action that may change the index of r is one of the allowed insertions *)
+Definition only_inserts (r : string) (D : list desc) (a : act) : Prop :=
+  match a with
+  | AIndexInsert r' d cs => r' = r -> In d D /\ cs = []
+  | AIndexRemove r' _ => r' <> r
+  | _ => True
+  end.
+
+Lemma exec_act_index_other cfg E a s r :
+  (match a with AIndexInsert r' _ _ | AIndexRemove r' _ => r' <> r | _ => True end) ->
+  r_index (get_repo cfg r (fst (exec_act cfg E a s))) = r_index (get_repo cfg r s).
+Proof.
+  intros Ha. destruct (String.eqb_spec (act_repo a) r) as [Heq|Hne].
+  - destruct a; simpl in *; try contradiction;
+      repeat match goal with
+             | |- context [if ?b then _ else _] => destruct b eqn:?
+             | |- context [match ?x with _ => _ end] => destruct x eqn:?
+             end; simpl; auto; subst;
+      try (unfold get_repo, set_repo; simpl; rewrite String.eqb_refl; reflexivity).
+    all: try (unfold get_repo; simpl; rewrite String.eqb_refl; reflexivity).
+  - rewrite exec_act_frame; auto.
+Qed.
+
+Theorem concurrent_tag_pushes_all_present cfg E r D :
+  c_readonly cfg = false ->
+  Forall plain_tagged D ->
+  (forall d1 d2, In d1 D -> In d2 D -> ann_get RefName d1 = ann_get RefName d2 -> d1 = d2) ->
+  forall acts s, Forall (only_inserts r D) acts ->
+    forall d, In d D ->
+      (In d (top (r_index (get_repo cfg r s))) \/ In (AIndexInsert r d []) acts) ->
+      In d (top (r_index (get_repo cfg r (exec_acts cfg E acts s)))).
+Proof.
+  intros Hro HD Hdist. induction acts as [|a rest IH]; intros s Hok d Hd Hor.
+  - simpl. destruct Hor as [H|[]]. exact H.
+  - inversion Hok as [|? ? Ha Hrest]; subst. simpl. apply IH; auto.
+    (* after the first action: d is present if it was, or if the action inserted it *)
+    assert (Hkeep : In d (top (r_index (get_repo cfg r s))) -> In d (top (r_index (get_repo cfg r (fst (exec_act cfg E a s)))))).
+    { intros Hin. destruct a; try (rewrite exec_act_index_other; [exact Hin|exact I]).
+      - (* an insertion *)
+        destruct (String.eqb_spec r0 r) as [->|Hne]; [|rewrite exec_act_index_other; auto].
+        destruct (Ha eq_refl) as [Hd0 ->]. simpl. rewrite Hro.
+        destruct (add_desc d0 [] (r_index (get_repo cfg r s))) as [i'| |] eqn:Ead; simpl; auto.
+        unfold get_repo, set_repo. simpl. rewrite String.eqb_refl. simpl.
+        destruct (string_dec (ann_get RefName d) (ann_get RefName d0)) as [Heq|Hneq].
+        + rewrite (Hdist d d0 Hd Hd0 Heq). rewrite Forall_forall in HD. eapply add_desc_in; [apply (HD d0 Hd0)|exact Ead].
+        + rewrite Forall_forall in HD. destruct (HD d Hd) as [Ht Hs].
+          apply (add_desc_keeps_other_tags d0 [] _ i' d (ann_get RefName d) Ead Hin); auto.
+          unfold holds, tag_of. apply String.eqb_refl.
+      - rewrite exec_act_index_other; [exact Hin|]. simpl in Ha. exact Ha. }
+    destruct Hor as [H|[H|H]].
+    + left. apply Hkeep. exact H.
+    + subst a. left. simpl. rewrite Hro.
+      destruct (add_desc d [] (r_index (get_repo cfg r s))) as [i'| |] eqn:Ead.
+      * simpl. unfold get_repo, set_repo. simpl. rewrite String.eqb_refl. simpl.
+        rewrite Forall_forall in HD. eapply add_desc_in; [apply (HD d Hd)|exact Ead].
+      * destruct (add_desc_total d [] (r_index (get_repo cfg r s))) as [x Hx]. congruence.
+      * destruct (add_desc_total d [] (r_index (get_repo cfg r s))) as [x Hx]. congruence.
+    + right. exact H.
+Qed.
